@@ -38,6 +38,12 @@ var c02Families = []c02Family{
 			}
 			return append(out, make([]byte, 6*p+16)...)
 		}, []int{4, 16, 64, 256}},
+	{"kern: k subtables of the minimal length 14 with 32768 pairs each (6*nPairs is a multiple of 65536), pair arrays overlapping the following subtables", "kern.Read",
+		func(k int) []byte { return c02KernWrap(k, 32768) }, []int{4, 16, 64, 256, 1024}},
+	{"kern: k subtables of the minimal length 14 with 21846 pairs each (6*nPairs = 2*65536 + 4), pair arrays overlapping the following subtables", "kern.Read",
+		func(k int) []byte { return c02KernWrap(k, 21846) }, []int{4, 16, 64, 256, 1024}},
+	{"kern: k subtables of the minimal length 14 with 10923 pairs each (6*nPairs = 65536 + 2), pair arrays overlapping the following subtables", "kern.Read",
+		func(k int) []byte { return c02KernWrap(k, 10923) }, []int{4, 16, 64, 256, 1024}},
 	{"CFF: charstring calling a tree of local subroutines, depth 9, fan-out k (k^9 calls from 9(2k+1) bytes)", "cff.Read",
 		func(k int) []byte {
 			call := func(idx int) []byte { return []byte{byte(idx - 107 + 139), 10} }
@@ -149,6 +155,14 @@ var c02Families = []c02Family{
 			}
 			return out
 		}, []int{4, 16, 64, 256, 1024, 4096}},
+}
+
+func c02KernWrap(k, pairs int) []byte {
+	out := be16(0, k)
+	for i := 0; i < k; i++ {
+		out = append(out, be16(0, 14, 0x0001, pairs, 0, 0, 0)...)
+	}
+	return append(out, make([]byte, 6*pairs+16)...)
 }
 
 func c02FamiliesPart(r *run.Run) {
